@@ -27,6 +27,7 @@ RULE = ("HDF5-domain table written by the library as HDF5 and JSON x axis x "
         "table with >= 1 non-zero; distinct = canonical hash")
 BUDGET = {"quick": {"shards": 16, "examples": 200},
           "thorough": {"shards": 16, "examples": 5000}}
+FUZZ_SECONDS = 120   # thorough tier: atheris campaign on the same property
 ASSUMPTIONS = ["'every JSON serialisation' = json.dumps of the same document "
                "with different separators / indentation (member order kept)"]
 TMP = c01.TMP
